@@ -1153,7 +1153,9 @@ static int dd_discriminator(struct demangle_data *dd)
 
 	c = dd_curr(dd);
 	if (isdigit(c)) {
-		return dd_number(dd) > 0 ? 0 : -1;
+		/* "_ <digit>": exactly one digit (larger values are "__ <number> _") */
+		__dd_consume(dd, NULL);
+		return 0;
 	}
 	else if (c == '_') {
 		__dd_consume(dd, NULL);
